@@ -292,6 +292,7 @@ impl Scheduler for DfsSched {
         s.step = 0;
         EXPLORING.with(|e| e.set(true));
         qbice_verif_rt::events::reset();
+        crate::ystore::reset_thread_state();
         Some(Schedule::new(0))
     }
 
